@@ -286,6 +286,7 @@ def run(res: Results, idx: Index, tier: str) -> None:
     run_promotion_overrides(res, idx)
     run_axis_role_params(res, idx)
     run_irfft_length_conservation(res, idx)
+    run_priority_cascades(res, idx)
     _rule_i(res, idx, tier)
 
 
@@ -417,3 +418,64 @@ def _parents(n: ast.AST):
     while cur is not None:
         yield cur
         cur = getattr(cur, "parent", None)
+
+
+# ---------------------------------------------------------------------------------------------- R-C01l
+# lowering function -> which of several simultaneously true conditions decides (reference: the library's documentation)
+PRIORITY_FOLDS = {
+    ("jax2onnx/plugins/jax/numpy/select.py", "JnpSelectPlugin.lower"): ("first", "jnp.select: 'the first condition that is true decides'"),
+}
+
+
+def run_priority_cascades(res: Results, idx: Index) -> None:
+    """A conditional cascade `acc = Where(c_k, v_k, acc)` built in a loop makes the LAST iterated condition the outermost
+    one, and the outermost true condition decides.  For a first-match operation the loop therefore has to run over the
+    conditions in reverse (`reversed(...)` / `[::-1]`); a forward loop is the same nodes, shapes and dtypes with
+    last-match semantics — wrong exactly where two conditions overlap."""
+    res.rule("R-C01l", "conditional cascades folded in a loop iterate in the direction that gives the operation's documented priority among overlapping conditions", floor=1)
+    n = 0
+    for (rel, qn), (want, why) in PRIORITY_FOLDS.items():
+        f = idx.find_func(rel, qn)
+        if f is None:
+            raise AnalysisError(f"{rel}::{qn} not found (R-C01l table is stale)")
+        key = f"{rel}::{qn}::cascade-direction"
+        found = False
+        for lp in walk_no_nested(f.node):
+            if not isinstance(lp, ast.For):
+                continue
+            for st in ast.walk(lp):
+                if not (isinstance(st, ast.Assign) and len(st.targets) == 1 and isinstance(st.targets[0], ast.Name)):
+                    continue
+                v = st.value
+                while isinstance(v, ast.Call) and (call_name(v) or "") in ("cast", "_as_value", "typing.cast") and v.args:
+                    v = v.args[-1]
+                if not (isinstance(v, ast.Call) and isinstance(v.func, ast.Attribute) and v.func.attr == "Where" and len(v.args) >= 3 and isinstance(v.args[2], ast.Name)):
+                    continue
+                tgt, acc = st.targets[0].id, v.args[2].id
+                # acc is loop-carried from the Where result: acc is tgt, or `acc = tgt` inside the loop
+                carried = acc == tgt or any(isinstance(c, ast.Assign) and len(c.targets) == 1 and isinstance(c.targets[0], ast.Name) and c.targets[0].id == acc
+                                            and isinstance(c.value, ast.Name) and c.value.id == tgt for c in ast.walk(lp))
+                if not carried:
+                    continue
+                found = True
+                n += 1
+                it = lp.iter
+                rev = (isinstance(it, ast.Call) and (call_name(it) or "") == "reversed") or (
+                    isinstance(it, ast.Subscript) and isinstance(it.slice, ast.Slice) and isinstance(it.slice.step, ast.UnaryOp) and isinstance(it.slice.step.op, ast.USub))
+                fwd = not rev and not any(isinstance(x, ast.Call) and (call_name(x) or "") == "reversed" for x in ast.walk(it)) and not any(
+                    isinstance(x, ast.Slice) and x.step is not None for x in ast.walk(it)) and not (isinstance(it, ast.Call) and (call_name(it) or "") == "range" and len(it.args) == 3)
+                if isinstance(it, ast.Name):
+                    fwd = rev = False
+                got = "first" if rev else ("last" if fwd else None)
+                site = f"{rel}:{lp.lineno}"
+                if got is None:
+                    res.unresolved("R-C01l", site, key, f"iteration order of `{src(it, 60)}` not recognised", f.qualname)
+                elif got == want:
+                    res.ok("R-C01l", site, key, f"cascade over `{src(it, 50)}`: the {got} true condition decides ({why})", f.qualname)
+                else:
+                    res.violation("R-C01l", site, key, f"the cascade `{tgt} = Where(c, v, {acc})` is folded over `{src(it, 60)}`, which makes the {got} true condition decide; {why}: wherever two conditions "
+                                  f"are true together the exported model returns a different choice than JAX", f.qualname)
+        if not found:
+            res.unresolved("R-C01l", f"{rel}:{f.node.lineno}", key, "no loop-carried `acc = Where(c, v, acc)` fold found in the lowering", f.qualname)
+            n += 1
+    res.analysed["priority_cascades"] = n
